@@ -44,6 +44,7 @@ CONSTANTS NRanks,      \* R
           AdMode,      \* "none" | "forward" | "reverse" | "2rdm"
           WVals, EVals, OVals, NormVals,   \* what a rank can obtain in one block
           TrialObs, TrialNorm,             \* the trial's own observable / rdm norm
+          NoObsVal,                        \* the observable column without AD (0 + the observable's constant)
           Mutation     \* "none" or a named wrong bookkeeping (must violate a property below)
 
 NaN     == -999        \* stands for any non-finite value (TLC cannot mix strings and integers in one set)
@@ -55,17 +56,20 @@ OutCol  == IF AdMode \in {"forward", "reverse"} THEN "o" ELSE "e"
 M10     == <<10, 1>>
 DumpEvery     == IF NBlk \div 10 > 1 THEN NBlk \div 10 ELSE 1
 IsDumpBlock(k) == k % DumpEvery = 0          \* k: 0-based block index, as in the code
-NoFile  == <<"absent">>
+NoFile  == <<>>            \* no file yet (a dump always holds at least one block)
 
-VARIABLES pc, n, pending, rawHist, table, blockE, eEst, rawFile, dumps, largeLocal, largeTotal,
+VARIABLES pc, n, pending, rawHist, table, blockE, beHist, eEst, rawFile, dumps, largeLocal, largeTotal,
           cleanRows, cleanMask, rdmKept, result
-vars == <<pc, n, pending, rawHist, table, blockE, eEst, rawFile, dumps, largeLocal, largeTotal,
+vars == <<pc, n, pending, rawHist, table, blockE, beHist, eEst, rawFile, dumps, largeLocal, largeTotal,
           cleanRows, cleanMask, rdmKept, result>>
 
 \* what a rank obtains before the driver looks at it
-RawOutcomes == [w : WVals, e : EVals,
-                o : IF AdMode \in {"forward", "reverse"} THEN OVals \cup {NaN} ELSE {0},
-                nrm : IF HasRdm THEN NormVals \cup {NaN} ELSE {0}]
+\* (reverse mode: the observable is SUM rdm * op, so a non-finite entry of the density-matrix sample makes the
+\* observable non-finite as well - also where op is zero, 0 * nan = nan)
+RawOutcomes == {x \in [w : WVals, e : EVals,
+                       o : IF AdMode \in {"forward", "reverse"} THEN OVals \cup {NaN} ELSE {NoObsVal},
+                       nrm : IF HasRdm THEN NormVals \cup {NaN} ELSE {0}] :
+                  (AdMode = "reverse" /\ x.nrm = NaN) => x.o = NaN}
 
 \* the driver's substitution rule, per ad_mode
 Deviates(x) == CASE AdMode = "forward" -> x.o = NaN
@@ -74,7 +78,7 @@ Deviates(x) == CASE AdMode = "forward" -> x.o = NaN
                  [] OTHER              -> FALSE
 RowOf(x, b, r) ==
   [w |-> x.w, e |-> x.e,
-   o |-> CASE AdMode = "none" -> 0
+   o |-> CASE AdMode = "none" -> NoObsVal
            [] AdMode = "2rdm" -> TrialObs
            [] OTHER -> IF Deviates(x) THEN TrialObs ELSE x.o,
    nrm |-> IF ~HasRdm THEN 0 ELSE IF Deviates(x) THEN TrialNorm ELSE x.nrm,
@@ -83,7 +87,7 @@ RowOf(x, b, r) ==
 Col(rows, f) == [i \in 1..Len(rows) |-> rows[i][f]]
 
 Init == /\ pc = "sample" /\ n = 0 /\ pending = <<>> /\ rawHist = <<>> /\ table = <<>>
-        /\ blockE = <<0, 1>> /\ eEst = <<0, 1>> /\ rawFile = NoFile /\ dumps = {}
+        /\ blockE = <<0, 1>> /\ beHist = <<>> /\ eEst = <<0, 1>> /\ rawFile = NoFile /\ dumps = {}
         /\ largeLocal = [r \in Ranks |-> 0] /\ largeTotal = -1
         /\ cleanRows = <<>> /\ cleanMask = <<>> /\ rdmKept = {} /\ result = <<>>
 
@@ -93,14 +97,14 @@ SampleWith(xs) ==
   /\ rawHist' = Append(rawHist, xs)
   /\ largeLocal' = [r \in Ranks |-> largeLocal[r] + IF Deviates(xs[r]) THEN 1 ELSE 0]
   /\ pc' = "gather"
-  /\ UNCHANGED <<n, table, blockE, eEst, rawFile, dumps, largeTotal, cleanRows, cleanMask, rdmKept, result>>
+  /\ UNCHANGED <<n, table, blockE, beHist, eEst, rawFile, dumps, largeTotal, cleanRows, cleanMask, rdmKept, result>>
 Sample == \E xs \in [Ranks -> RawOutcomes] : SampleWith(xs)
 
 RankOrder == IF Mutation = "reversed_rank_order" THEN [r \in Ranks |-> pending[NRanks + 1 - r]] ELSE pending
 GatherWith(be) ==      \* be: the block energy rank 0 computes from what it gathered and broadcasts
   /\ pc = "gather"
   /\ table' = table \o [r \in Ranks |-> RankOrder[r]]
-  /\ blockE' = be
+  /\ blockE' = be /\ beHist' = Append(beHist, be)
   /\ pc' = "update"
   /\ UNCHANGED <<n, pending, rawHist, eEst, rawFile, dumps, largeLocal, largeTotal, cleanRows, cleanMask, rdmKept, result>>
 Gather == GatherWith(WMean(Col(pending, "w"), Col(pending, "e")))
@@ -110,27 +114,28 @@ UpdateWith(est) ==
   /\ eEst' = est
   /\ pc' = IF IsDumpBlock(n) THEN "dump" ELSE "sample"
   /\ n' = IF IsDumpBlock(n) THEN n ELSE n + 1
-  /\ UNCHANGED <<pending, rawHist, table, blockE, rawFile, dumps, largeLocal, largeTotal, cleanRows, cleanMask, rdmKept, result>>
-Update == UpdateWith(RAdd(RMul(<<9, 10>>, eEst), RMul(<<1, 10>>, blockE)))
+  /\ UNCHANGED <<pending, rawHist, table, blockE, beHist, rawFile, dumps, largeLocal, largeTotal, cleanRows, cleanMask, rdmKept, result>>
+\* (followed exactly only for short runs: the denominators 10^k leave TLC's 32-bit integers)
+Update == UpdateWith(IF NBlk <= 6 THEN RAdd(RMul(<<9, 10>>, eEst), RMul(<<1, 10>>, blockE)) ELSE <<0, 1>>)
 
 Dump ==
   /\ pc = "dump"
   /\ rawFile' = IF Mutation = "dump_one_block_short" THEN SubSeq(table, 1, n * NRanks) ELSE SubSeq(table, 1, (n + 1) * NRanks)
   /\ dumps' = dumps \cup {n}
   /\ n' = n + 1 /\ pc' = "sample"
-  /\ UNCHANGED <<pending, rawHist, table, blockE, eEst, largeLocal, largeTotal, cleanRows, cleanMask, rdmKept, result>>
+  /\ UNCHANGED <<pending, rawHist, table, blockE, beHist, eEst, largeLocal, largeTotal, cleanRows, cleanMask, rdmKept, result>>
 
 Reduce ==
   /\ pc = "sample" /\ n = NBlk
   /\ largeTotal' = ISum(LAMBDA r : largeLocal[r], Ranks)
   /\ pc' = "postraw"
-  /\ UNCHANGED <<n, pending, rawHist, table, blockE, eEst, rawFile, dumps, largeLocal, cleanRows, cleanMask, rdmKept, result>>
+  /\ UNCHANGED <<n, pending, rawHist, table, blockE, beHist, eEst, rawFile, dumps, largeLocal, cleanRows, cleanMask, rdmKept, result>>
 
 PostRaw ==
   /\ pc = "postraw"
   /\ rawFile' = table
   /\ pc' = "clean"
-  /\ UNCHANGED <<n, pending, rawHist, table, blockE, eEst, dumps, largeLocal, largeTotal, cleanRows, cleanMask, rdmKept, result>>
+  /\ UNCHANGED <<n, pending, rawHist, table, blockE, beHist, eEst, dumps, largeLocal, largeTotal, cleanRows, cleanMask, rdmKept, result>>
 
 \* reject_outliers: rows strictly inside m MAD are kept, rows strictly outside dropped; a row exactly on the
 \* edge d = m MAD > 0 is decided by the routine's 1e-10 regulariser and round-off - either outcome is a behaviour;
@@ -144,7 +149,7 @@ CleanWith(mk) ==
   /\ cleanMask' = mk
   /\ cleanRows' = Keep(table, mk)
   /\ pc' = "energy"
-  /\ UNCHANGED <<n, pending, rawHist, table, blockE, eEst, rawFile, dumps, largeLocal, largeTotal, rdmKept, result>>
+  /\ UNCHANGED <<n, pending, rawHist, table, blockE, beHist, eEst, rawFile, dumps, largeLocal, largeTotal, rdmKept, result>>
 CleanCol == IF Mutation = "always_energy_column" THEN "e" ELSE OutCol
 Clean == \E mk \in MaskChoices(Refine(RowClass(Col(table, CleanCol), M10), Col(table, CleanCol))) : CleanWith(mk)
 
@@ -154,7 +159,7 @@ EnergyWith(res) ==
   /\ pc = "energy"
   /\ result' = res
   /\ pc' = IF HasObs THEN "obs" ELSE "done"
-  /\ UNCHANGED <<n, pending, rawHist, table, blockE, eEst, rawFile, dumps, largeLocal, largeTotal, cleanRows, cleanMask, rdmKept>>
+  /\ UNCHANGED <<n, pending, rawHist, table, blockE, beHist, eEst, rawFile, dumps, largeLocal, largeTotal, cleanRows, cleanMask, rdmKept>>
 Energy == EnergyWith([e |-> BlockingMean(Col(EnergySrc, "w"), Col(EnergySrc, "e"), 0),
                       err2 |-> ErrOrZero(BlockingErr2(Col(EnergySrc, "w"), Col(EnergySrc, "e"), 0))])
 
@@ -162,14 +167,14 @@ ObsWith(o) ==
   /\ pc = "obs"
   /\ result' = result @@ [obs |-> o]
   /\ pc' = IF HasRdm THEN "rdm" ELSE "done"
-  /\ UNCHANGED <<n, pending, rawHist, table, blockE, eEst, rawFile, dumps, largeLocal, largeTotal, cleanRows, cleanMask, rdmKept>>
+  /\ UNCHANGED <<n, pending, rawHist, table, blockE, beHist, eEst, rawFile, dumps, largeLocal, largeTotal, cleanRows, cleanMask, rdmKept>>
 Obs == ObsWith(BlockingMean(Col(cleanRows, "w"), Col(cleanRows, "o"), 0))
 
 RdmWith(mk) ==
   /\ pc = "rdm"
   /\ rdmKept' = {cleanRows[i].id : i \in {j \in 1..Len(cleanRows) : mk[j]}}
   /\ pc' = "done"
-  /\ UNCHANGED <<n, pending, rawHist, table, blockE, eEst, rawFile, dumps, largeLocal, largeTotal, cleanRows, cleanMask, result>>
+  /\ UNCHANGED <<n, pending, rawHist, table, blockE, beHist, eEst, rawFile, dumps, largeLocal, largeTotal, cleanRows, cleanMask, result>>
 Rdm == \E mk \in MaskChoices(Refine(RowClass(Col(cleanRows, "nrm"), M10), Col(cleanRows, "nrm"))) : RdmWith(mk)
 
 Finished == pc = "done" /\ UNCHANGED vars
@@ -190,7 +195,7 @@ RankOrdered == \A i \in 1..Len(table) :
                       x == rawHist[b][r]
                   IN  /\ table[i].id = <<b, r>> /\ table[i].w = x.w /\ table[i].e = x.e
                       /\ AdMode \in {"forward", "reverse"} => table[i].o = (IF x.o = NaN THEN TrialObs ELSE x.o)
-                      /\ AdMode = "none" => table[i].o = 0
+                      /\ AdMode = "none" => table[i].o = NoObsVal
 NoNaNReported == \A i \in 1..Len(table) : table[i].o # NaN /\ table[i].nrm # NaN
 TwoRdmObservableIsTrial == AdMode = "2rdm" => \A i \in 1..Len(table) : table[i].o = TrialObs
 
